@@ -217,7 +217,7 @@ impl Prop for SetSerde {
             let small = (gen::input_and_cap(f, gen::any_input(f, true)), vec(prop_oneof![2 => Just(0u8), 3 => 1u8..6], 0..5))
                 .prop_map(move |((input, cap), batch)| SetCase { format: f, input, cap, batch });
             // record sets holding more than 64 KiB of data (capacity above the default, or exact reads of many records)
-            let big = (gen::big_input(f), prop_oneof![3 => gen::big_cap(), 1 => Just(1usize << 18), 1 => Just(1usize << 20)], vec(prop_oneof![2 => Just(0u8), 1 => 20u8..200, 2 => 1u8..6], 0..6)).prop_map(move |(input, cap, batch)| SetCase { format: f, input, cap, batch });
+            let big = (prop_oneof![3 => gen::big_input(f), 1 => gen::exact_len_doc(f)], prop_oneof![3 => gen::big_cap(), 1 => Just(1usize << 18), 1 => Just(1usize << 20)], vec(prop_oneof![2 => Just(0u8), 1 => 20u8..200, 2 => 1u8..6], 0..6)).prop_map(move |(input, cap, batch)| SetCase { format: f, input, cap, batch });
             prop_oneof![40 => small, 1 => big]
         };
         boxed(prop_oneof![per(Format::Fasta), per(Format::Fastq)])
